@@ -1076,12 +1076,18 @@ def narrow_cases(thorough=False):
         add("svarArgs", q, "{svar:p9, q sub-variables}", ["s%s:%d" % (dots(U("p9")), q)] + args, {"svarArgs": q}, [(U("p9"), ("s", U("{0}{9}{1}|{8}")))], probe=None)
     # ---- level: q enclosing block tags around a loop; q+1 nested loops
     for q in N8:
-        for how in WRAPS:
+        for how in ("alone", "outer-loop", "in-if"):
             n_if = q if how == "alone" else q - 1          # the wrapper is one more enclosing block tag
             toks = ["l%s:%s:2" % (dots(U("l")), dots(U("X1"))), _tok("v", "X1"), _tok("x", ",")]
+            if how == "outer-loop":
+                toks = toks + [_tok("v", "W"), _tok("x", ";")]   # the outer loop's variable AFTER the inner loop: Level 0 vs Level q must not collide
             for _ in range(n_if):
-                toks = ["i1", _tok("c", "1"), "b1"] + toks
-            add("level", q, "<if> x %d around a loop (Level = q)" % n_if, toks + [_tok("v", "a")], {"level": q}, (), probe=r"loop\((?:\d+,){12}(\d+)\)", wraps=(how,))
+                toks = ["i1", _tok("c", "1"), "b%d" % _count(toks)] + toks
+            if how == "outer-loop":
+                toks = ["l%s:%s:%d" % (dots(U("l")), dots(U("W")), _count(toks) + 1)] + toks + [_tok("v", "W")]
+            elif how == "in-if":
+                toks = ["i1", _tok("c", "1"), "b%d" % _count(toks)] + toks
+            add("level", q, "<if> x %d around a loop (Level = q), %s" % (n_if, how), toks + [_tok("v", "a")], {"level": q}, (), probe=r"loop\((?:\d+,){12}(\d+)\)", wraps=("alone",))
         nest = ("n", 6)
         for _ in range(q + 1):
             nest = ("a", [nest])
@@ -1245,3 +1251,18 @@ def c01_narrow_fields(ctx, drv):
                     i = u.index(ch)
                     cmp_items.append((w, p["doc_enc"], u[:i] + u[i + 1:]))
     return {"compared": cmp_items, "faults-only": big_items, "tags": tag_items}
+
+
+def c01_narrow_big(ctx, exe, items):
+    """quick tier: the >= 20k-unit boundary templates on the real code only (the list-based Lean model needs 15-60 s for
+    each; the thorough tier compares them).  A sanitizer report is a C01 failure."""
+    from checks import c01 as C
+    lines = C.to_lines("tplrender", items)
+    keys = {}
+    impl, faults = _par(exe, lines, on_fault=lambda i, k, se: None)
+    for i, kind, err in faults:
+        key = C.fault_key(kind, err)
+        ctx.fail("fault:" + key, "fault (%s) of the real code at a 16-bit field boundary on %s" % (kind, C.describe(lines[i])[:300]),
+                 {"line": lines[i][:20000], "stderr": err, "stream": "narrow-fields-16bit"})
+    ctx.count("narrow-fields-16bit(faults only)", len(lines), len(set(lines)),
+              sample={"stream": "narrow-fields-16bit", "input": lines[0][:200] if lines else "", "impl": impl[0][:100] if lines else ""})
